@@ -1,4 +1,5 @@
 """BIT-TAGGED, BIT-DELEGATION, BIT-STATE, MOD-WINDOW, EPOCH-ARITH (DESIGN.md 4.4) on engine C."""
+import re
 from .facts import AnalysisError
 from .report import RuleResult
 from .bitabs import W, Interp, Unknown, bits_str, deps, mask
@@ -245,6 +246,32 @@ def rule_bit_delegation(ctx):
         n += 1
         if not ok:
             r.violate(name, "deref", "dereferences the packed word without stripping tag and epoch bits", b.loc(0))
+    # no method or trait impl of the handle types observes the packed word as a whole: hashing, comparing or ordering `self.ptr`
+    # through Tagged's own impls (Hash hashes all 64 bits) makes the epoch bits - which differ between two handles to one object
+    # that came through links written in different epochs - visible (S-C11-8: Hash for Weak by `self.ptr.hash(state)`)
+    ALLOWED_TAGGED_TRAITS = ("std::clone::Clone", "std::marker::Copy", "std::default::Default", "std::fmt::Debug", "std::fmt::Pointer",
+                             "std::convert::From", "std::convert::Into")
+    nraw = 0
+    for name, b in sorted(prog.bodies.items()):
+        isf = b.j.get("impl_self") or ""
+        home = prog.home(name) if b.kind == "closure" else name
+        hb = prog.bodies.get(home)
+        isf = (hb.j.get("impl_self") or "") if hb is not None else isf
+        if not isf.startswith(("strong::", "weak::")) or "::test" in name:
+            continue
+        for (bi, _, c) in b.calls():
+            tg = c.target or ""
+            m_ = re.match(r"^<ebr_impl::pointers::Tagged<[^>]*> as ([^>]+?)(?:<.*)?>::(\w+)$", tg)
+            if not m_:
+                continue
+            nraw += 1
+            okr = m_.group(1) in ALLOWED_TAGGED_TRAITS
+            if not okr:
+                r.instance("%s does not observe the packed word through Tagged's `%s`" % (name, m_.group(1)), False)
+                r.violate(name, "raw-word:" + m_.group(2), "observes the whole packed word (`%s` of Tagged: all 64 bits, the internal "
+                          "epoch bits included): two handles to one object that came through links written in different epochs "
+                          "differ in it" % tg[:70], b.loc(bi))
+    r.instance("no handle method observes the packed word as a whole (%d calls of Tagged trait impls, all of Clone/Default/Debug/Pointer/From)" % nraw, True)
     r.require(n, 30, "delegation instances")
     return r
 
